@@ -2340,7 +2340,8 @@ template< size_t L>
    // test if string is already full
    if (mLength == L)
       return *this;
-   return append( std::string( count, ch));
+   // only L - mLength characters fit, no need to create a longer string
+   return append( std::string( std::min( count, L - mLength), ch));
 } // FixedString< L>::append
 
 
@@ -2885,7 +2886,8 @@ template< size_t L>
       FixedString< L>::replace( size_t pos, size_t count, size_t count2,
          char ch) noexcept
 {
-   return replace( pos, count, std::string( count2, ch));
+   // more than L characters never fit, no need to create a longer string
+   return replace( pos, count, std::string( std::min( count2, L), ch));
 } // FixedString< L>::replace
 
 
